@@ -198,7 +198,7 @@ func VHarness_C08_Twin() {
 // on-disk index a replica publishes with a snapshot must be the index of the
 // data it actually holds, otherwise a receiver skips loading the data while
 // its applied index jumps: R must end with every update exactly once.
-//vcheck: props=C02,C11 reach=l-loaded,r-loaded,done workers=8
+//vcheck: props=C02,C11 reach=l-loaded,r-loaded,origin-restarted,done workers=8
 func VHarness_C08_OnDiskSnapshotChain() {
 	n := 4
 	vInitResults(n + 2)
@@ -230,6 +230,28 @@ func VHarness_C08_OnDiskSnapshotChain() {
 	y := vChoose("rApplied", n)
 	apply(L, 0, x)
 	apply(R, 0, y)
+	if vBool("originRestarted") {
+		// O restarts before it streams: its durable data holds everything it
+		// applied (Open returns that index); its latest snapshot record is a dummy
+		// one taken at an earlier index d; the initial recovery goes through it
+		// and the entries after it are replayed (and skipped: already on disk).
+		d := 1 + vChoose("dummyAt", n-1) // entries 0..d-1 were applied when it was taken
+		uO2 := &vUSM{onDisk: true, openIndex: vBase + uint64(n) - 1}
+		uO2.updates = append([]vUpd(nil), uO.updates...)
+		snO2 := &vSnapshotter{}
+		O2 := vNewSM(uO2, &vNode{self: 1}, snO2, 2)
+		ds := pb.Snapshot{Index: vBase + uint64(d) - 1, Term: 5, Dummy: true, OnDiskIndex: vBase + uint64(d) - 1, Type: pb.OnDiskStateMachine,
+			Membership: O.members.get()}
+		snO2.img = &vImage{ss: ds}
+		_, err := O2.OpenOnDiskStateMachine()
+		vAssert(err == nil, "open-noerr")
+		_, err = O2.Recover(Task{Recover: true, Initial: true})
+		vAssert(err == nil, "restart-recover-noerr")
+		apply(O2, d, n)
+		vAssert(len(uO2.updates) == n, "restarted-origin-applies-nothing-twice")
+		O, uO, snO = O2, uO2, snO2
+		vReach("origin-restarted")
+	}
 	// O -> L
 	vAssert(O.Stream(nil) == nil, "stream-noerr")
 	snL.img = snO.streamed
